@@ -69,16 +69,22 @@ Qed.
 Lemma existsb_strs_in g l : In g l -> existsb (fun x => json_eqb_str x g) (map JStr l) = true.
 Proof. intros Hin. apply existsb_exists. exists (JStr g). split; [apply in_map; assumption|]. cbn. apply String.eqb_refl. Qed.
 
-Theorem restore1_exposed : forall t, wf t -> forall n path R g k v d,
+Lemma append_assoc_s (a b c : string) : ((a ++ b) ++ c = a ++ (b ++ c))%string.
+Proof. induction a; cbn; congruence. Qed.
+
+Lemma format_path_app path k suffix : (format_path path k ++ suffix)%string = (path ++ ("/" ++ k ++ suffix))%string.
+Proof. unfold format_path. rewrite !append_assoc_s. reflexivity. Qed.
+
+Theorem restore1_exposed : forall t, wf t -> forall n R g k v d,
   NoDup (alldigs t) -> NoDup (hdigs t) -> closedR R t -> aheight t <= n ->
   Exposed R g k v t -> d_digest d = g -> d_key d = k -> d_val d = v ->
-  exists ps, restore1 n d path (view R t) = Ok (view (Radd R g) t, ps, true).
+  exists suffix, forall path, restore1 n d path (view R t) = Ok (view (Radd R g) t, [((path ++ suffix)%string, d)], true).
 Proof.
   induction t as [j | items IH | mems IH] using atree_ind'; intros Hwf.
-  - intros n path R g k v d Hnd Hndh Hcl Hh Hex Hdg Hdk Hdv. inversion Hex.
+  - intros n R g k v d Hnd Hndh Hcl Hh Hex Hdg Hdk Hdv. inversion Hex.
   - (* arrays *)
     inversion Hwf as [| ? Hall Hiok |]; subst.
-    intros n path R g k v d Hnd Hndh Hcl Hh Hex Hdg Hdk Hdv.
+    intros n R g k v d Hnd Hndh Hcl Hh Hex Hdg Hdk Hdv.
     rewrite aheight_arr in Hh. destruct n as [|n]; [lia|]. apply le_S_n in Hh.
     rewrite alldigs_arr in Hnd. rewrite hdigs_arr in Hndh. apply closedR_arr in Hcl.
     assert (HR : forall g', g' <> d_digest d -> Radd R g g' = R g') by (intros; apply Radd_other; congruence).
@@ -92,15 +98,17 @@ Proof.
       { apply view_blind. intros g' Hg'. rewrite Radd_other.
         - rewrite Forall_forall in Hcl. specialize (Hcl _ Hin). cbn in Hcl. rewrite <- Hg, HRg in Hcl. cbn in Hcl. auto.
         - intros ->. apply Hgs. apply hdigs_alldigs; assumption. }
-      destruct (restore1_arr_step H enc show_nat n d path R (Radd R g) items pre (IHid salt, s) post (blind s)
-                  (fun i => [(format_path path (show_nat i), d)])) as [ps' Hw]; try assumption.
+      exists ("/" ++ show_nat (List.length pre))%string. intros path.
+      pose proof (restore1_arr_step H enc show_nat n d path R (Radd R g) items pre (IHid salt, s) post (blind s)
+                  (fun i => [(format_path path (show_nat i), d)])) as Hw.
+      cbn [Model2.restore1]. rewrite view_arr. rewrite Hw; try assumption.
+      * cbn [bind]. rewrite view_arr. reflexivity.
       * rewrite Hdg. left. symmetry. assumption.
       * intros i. unfold arr_body. cbn [ATree.view_item]. rewrite <- Hg, HRg. cbn [placeholder_of placeholder obj_get].
         cbn. rewrite Hdg, String.eqb_refl, Hdk, Hk. cbn [bind].
         rewrite Hdv, Hv. rewrite blind_no_occ; [reflexivity|assumption|rewrite Hdg; assumption|].
         pose proof (hmax_in item_h _ _ Hin) as Hm. unfold item_h in Hm. lia.
       * cbn [ATree.view_item]. rewrite <- Hg, Radd_same. symmetry. assumption.
-      * exists ps'. cbn [Model2.restore1]. rewrite view_arr. rewrite Hw. cbn [bind]. rewrite view_arr. reflexivity.
     + (* the placeholder is deeper, inside an opened element *)
       destruct (in_split _ _ Hin) as (pre & post & Hsplit).
       assert (Hws : wf s) by (rewrite Forall_forall in Hall; exact (Hall _ Hin)).
@@ -109,7 +117,7 @@ Proof.
       { intros R0 Ho. destruct ik as [|salt|g0]; cbn in Ho |- *; [reflexivity| |discriminate]. injection Ho as ->. reflexivity. }
       assert (Hop' : iopened H enc (Radd R g) (ik, s) = Some true).
       { destruct ik as [|salt|g0]; cbn in Hop |- *; [reflexivity| |discriminate]. injection Hop as Hop. rewrite Radd_mono; auto. }
-      assert (Hsub : exists pss, forall p, restore1 n d p (view R s) = Ok (view (Radd R g) s, pss p, true)).
+      assert (Hsub : exists suffix, forall p, restore1 n d p (view R s) = Ok (view (Radd R g) s, [((p ++ suffix)%string, d)], true)).
       { rewrite Forall_forall in IH. specialize (IH _ Hin). cbn in IH.
         assert (Hn1 : NoDup (alldigs s)).
         { pose proof (NoDup_flat_map_in adigs_item _ _ Hnd Hin) as Hn1. destruct ik; cbn in Hn1; [assumption|inversion Hn1; assumption|].
@@ -120,22 +128,20 @@ Proof.
         { rewrite Forall_forall in Hcl. specialize (Hcl _ Hin). rewrite Hop in Hcl. exact Hcl. }
         assert (Hhs : aheight s <= n).
         { pose proof (hmax_in item_h _ _ Hin) as Hm. unfold item_h in Hm. destruct ik; lia. }
-        assert (forall p, exists ps, restore1 n d p (view R s) = Ok (view (Radd R g) s, ps, true)) as Hall'.
-        { intros p. eapply IH; eauto. }
-        (* choice over paths is not needed: paths only feed the ps component *)
-        exists (fun p => match restore1 n d p (view R s) with Ok (_, ps, _) => ps | Err => [] end).
-        intros p. destruct (Hall' p) as [ps Hp]. rewrite Hp. reflexivity. }
-      destruct Hsub as [pss Hsub].
-      destruct (restore1_arr_step H enc show_nat n d path R (Radd R g) items pre (ik, s) post (view (Radd R g) s)
-                  (fun i => pss (format_path path (show_nat i)))) as [ps' Hw]; try assumption.
+        eapply IH; eauto. }
+      destruct Hsub as [suffix Hsub].
+      exists ("/" ++ show_nat (List.length pre) ++ suffix)%string. intros path.
+      pose proof (restore1_arr_step H enc show_nat n d path R (Radd R g) items pre (ik, s) post (view (Radd R g) s)
+                  (fun i => [((format_path path (show_nat i) ++ suffix)%string, d)])) as Hw.
+      cbn [Model2.restore1]. rewrite view_arr. rewrite Hw; try assumption.
+      * cbn [bind]. rewrite view_arr, format_path_app. reflexivity.
       * rewrite Hdg. pose proof (hdigs_alldigs H enc s Hws g Hgh). destruct ik; cbn; auto. cbn in Hop. discriminate.
       * intros i. unfold arr_body. rewrite (Hvi R Hop). rewrite placeholder_of_view by assumption. cbn [bind].
         rewrite Hsub. reflexivity.
       * rewrite (Hvi _ Hop'). reflexivity.
-      * exists ps'. cbn [Model2.restore1]. rewrite view_arr. rewrite Hw. cbn [bind]. rewrite view_arr. reflexivity.
   - (* objects *)
     inversion Hwf as [| | ? Hs Hall Hok]; subst.
-    intros n path R g k v d Hnd Hndh Hcl Hh Hex Hdg Hdk Hdv.
+    intros n R g k v d Hnd Hndh Hcl Hh Hex Hdg Hdk Hdv.
     rewrite aheight_obj in Hh. destruct n as [|n]; [lia|]. apply le_S_n in Hh.
     rewrite alldigs_obj in Hnd. rewrite hdigs_obj in Hndh. apply closedR_obj in Hcl.
     assert (HR : forall g', g' <> d_digest d -> Radd R g g' = R g') by (intros; apply Radd_other; congruence).
@@ -173,18 +179,18 @@ Proof.
       { apply view_blind. intros g' Hg'. rewrite Radd_other.
         - rewrite Forall_forall in Hcl. specialize (Hcl _ Hin). cbn in Hcl. rewrite <- Hg, HRg in Hcl. cbn in Hcl. auto.
         - intros ->. apply Hgs. apply hdigs_alldigs; assumption. }
-      assert (Hoth := mem_others H enc show_nat n d path R (Radd R g) mems pre (name, (MHid salt, s)) post Hsplit Hall Hnames Hnd Hndh Hh).
+      assert (Hoth := fun path => mem_others H enc show_nat n d path R (Radd R g) mems pre (name, (MHid salt, s)) post Hsplit Hall Hnames Hnd Hndh Hh).
       assert (Hdisj : In (d_digest d) (adigs_mem (name, (MHid salt, s))) \/
                  exists y l0, In y (pre ++ post) /\ fst (snd y) = MSd l0 /\ In (d_digest d) l0).
       { right. exists ("_sd", (MSd l, sy)), l. rewrite Hdg. auto. }
       assert (Hdh : In (d_digest d) (hdigs_mem (name, (MHid salt, s)))) by (rewrite Hdg; left; symmetry; exact Hg).
-      specialize (Hoth Hdisj Hdh HR).
+      assert (Hoth' := fun path => Hoth path Hdisj Hdh HR). clear Hoth. rename Hoth' into Hoth.
       (* shape of the view before and after *)
       assert (HF : flat_map (vmem R) mems = (flat_map (vmem R) pre ++ flat_map (vmem R) post)%list).
       { rewrite Hsplit, flat_map_app. cbn [flat_map ATree.view_mem]. rewrite <- Hg, HRg. reflexivity. }
       assert (HF' : flat_map (vmem (Radd R g)) mems = (flat_map (vmem R) pre ++ (name, blind s) :: flat_map (vmem R) post)%list).
       { rewrite Hsplit, flat_map_app. cbn [flat_map ATree.view_mem]. rewrite <- Hg, Radd_same, Hvb. cbn [app].
-        f_equal; [|f_equal]; apply flat_map_ext_in'; intros y0 Hy0; apply Hoth; apply in_or_app; [left|right]; assumption. }
+        f_equal; [|f_equal]; apply flat_map_ext_in'; intros y0 Hy0; apply (Hoth ""%string); apply in_or_app; [left|right]; assumption. }
       assert (Hsorted := Hs). rewrite Hsplit, map_app in Hsorted. cbn [map fst] in Hsorted.
       apply ssorted_split in Hsorted as [Hlt Hgt].
       assert (Hpre_lt : Forall (fun kv : string * json => slt (fst kv) name) (flat_map (vmem R) pre)).
@@ -193,9 +199,9 @@ Proof.
       assert (Hpost_gt : Forall (fun kv : string * json => slt name (fst kv)) (flat_map (vmem R) post)).
       { apply Forall_forall. intros kv Hkv. apply keys_vmems_sub in Hkv as (m' & Hm' & _ & ->).
         rewrite Forall_forall in Hgt. apply Hgt. apply in_map. assumption. }
-      assert (Hsd : sd_step d path (flat_map (vmem R) pre ++ flat_map (vmem R) post) =
+      assert (Hsd : forall path, sd_step d path (flat_map (vmem R) pre ++ flat_map (vmem R) post) =
                     Ok ((flat_map (vmem R) pre ++ (name, blind s) :: flat_map (vmem R) post)%list, [(format_path path name, d)], true)).
-      { unfold sd_step.
+      { intros path. unfold sd_step.
         rewrite (obj_get_unique "_sd" (JArr (map JStr l))).
         - cbn [sd_contains bind]. rewrite Hdg, existsb_strs_in by assumption. rewrite Hdk, Hk.
           rewrite obj_get_none.
@@ -207,7 +213,8 @@ Proof.
               rewrite Hq in Hpost_gt. exact (slt_irrefl _ Hpost_gt).
         - rewrite <- HF. assumption.
         - rewrite <- flat_map_app. apply in_flat_map. exists ("_sd", (MSd l, sy)). split; [assumption|]. left. reflexivity. }
-      eexists. cbn [Model2.restore1]. rewrite !view_obj, HF, HF', Hsd. cbn [bind].
+      exists ("/" ++ name)%string. intros path. specialize (Hsd path). specialize (Hoth path).
+      cbn [Model2.restore1]. rewrite !view_obj, HF, HF', Hsd. cbn [bind].
       rewrite walk_id.
       * cbn [bind]. reflexivity.
       * intros kv Hkv. apply in_app_or in Hkv as [Hkv|[<-|Hkv]].
@@ -230,15 +237,15 @@ Proof.
       { rewrite Hdg. destruct Hkind as [->|(salt & -> & _)]; cbn; assumption. }
       assert (Hhdm : In (d_digest d) (hdigs_mem (name, (mk, s)))).
       { rewrite Hdg. destruct Hkind as [->|(salt & -> & _)]; cbn; [assumption|right; assumption]. }
-      assert (Hoth := mem_others H enc show_nat n d path R (Radd R g) mems pre (name, (mk, s)) post Hsplit Hall Hnames Hnd Hndh Hh
+      assert (Hoth := fun path => mem_others H enc show_nat n d path R (Radd R g) mems pre (name, (mk, s)) post Hsplit Hall Hnames Hnd Hndh Hh
                         (or_introl Hadm) Hhdm HR).
       assert (HF : flat_map (vmem R) mems = (flat_map (vmem R) pre ++ (name, view R s) :: flat_map (vmem R) post)%list).
       { rewrite Hsplit, flat_map_app. cbn [flat_map]. rewrite (Hvm R Hop). reflexivity. }
       assert (HF' : flat_map (vmem (Radd R g)) mems = (flat_map (vmem R) pre ++ (name, view (Radd R g) s) :: flat_map (vmem R) post)%list).
       { rewrite Hsplit, flat_map_app. cbn [flat_map]. rewrite (Hvm _ Hop'). cbn [app].
-        f_equal; [|f_equal]; apply flat_map_ext_in'; intros y0 Hy0; apply Hoth; apply in_or_app; [left|right]; assumption. }
-      assert (Hsd : sd_step d path (flat_map (vmem R) mems) = Ok (flat_map (vmem R) mems, [], false)).
-      { unfold sd_step. destruct (obj_get "_sd" (flat_map (vmem R) mems)) as [sd|] eqn:Eg; [|reflexivity].
+        f_equal; [|f_equal]; apply flat_map_ext_in'; intros y0 Hy0; apply (Hoth ""%string); apply in_or_app; [left|right]; assumption. }
+      assert (Hsd : forall path, sd_step d path (flat_map (vmem R) mems) = Ok (flat_map (vmem R) mems, [], false)).
+      { intros path. unfold sd_step. destruct (obj_get "_sd" (flat_map (vmem R) mems)) as [sd|] eqn:Eg; [|reflexivity].
         destruct (Hsdget _ eq_refl) as (y & l & Hy & Hky & ->). cbn [sd_contains bind].
         destruct (existsb (fun x => json_eqb_str x (d_digest d)) (map JStr l)) eqn:Ec; [|reflexivity].
         exfalso. apply existsb_strs in Ec.
@@ -248,7 +255,7 @@ Proof.
         rewrite Hsplit in Hnd.
         eapply (NoDup_flat_map_other adigs_mem pre (name, (mk, s)) post (d_digest d) Hnd Hadm y Hyo).
         destruct y as [ny [ky sy]]. cbn in Hky |- *. subst ky. exact Ec. }
-      assert (Hsub : exists pss, forall p, restore1 n d p (view R s) = Ok (view (Radd R g) s, pss p, true)).
+      assert (Hsub : exists suffix, forall p, restore1 n d p (view R s) = Ok (view (Radd R g) s, [((p ++ suffix)%string, d)], true)).
       { rewrite Forall_forall in IH. specialize (IH _ Hin). cbn in IH.
         assert (Hn1 : NoDup (alldigs s)).
         { pose proof (NoDup_flat_map_in adigs_mem _ _ Hnd Hin) as Hn1. destruct Hkind as [->|(salt & -> & _)]; cbn in Hn1; assumption. }
@@ -258,17 +265,16 @@ Proof.
         { rewrite Forall_forall in Hcl. specialize (Hcl _ Hin). rewrite Hop in Hcl. exact Hcl. }
         assert (Hhs : aheight s <= n).
         { pose proof (hmax_in mem_h _ _ Hin) as Hm. unfold mem_h in Hm. destruct Hkind as [->|(salt & -> & _)]; lia. }
-        assert (forall p, exists ps, restore1 n d p (view R s) = Ok (view (Radd R g) s, ps, true)) as Hall'.
-        { intros p. eapply IH; eauto. }
-        exists (fun p => match restore1 n d p (view R s) with Ok (_, ps, _) => ps | Err => [] end).
-        intros p. destruct (Hall' p) as [ps Hp]. rewrite Hp. reflexivity. }
-      destruct Hsub as [pss Hsub].
-      eexists. cbn [Model2.restore1]. rewrite !view_obj, Hsd. cbn [bind]. rewrite HF, HF'.
-      erewrite walk_split.
-      * cbn [bind]. reflexivity.
-      * intros kv Hkv. apply in_flat_map in Hkv as [y [Hy0 Hkv]]. eapply Hoth; [apply in_or_app; left; exact Hy0|exact Hkv].
+        eapply IH; eauto. }
+      destruct Hsub as [suffix Hsub].
+      exists ("/" ++ name ++ suffix)%string. intros path.
+      cbn [Model2.restore1]. rewrite !view_obj, Hsd. cbn [bind]. rewrite HF, HF'.
+      rewrite (walk_split (obj_body (restore1 n d) path) (flat_map (vmem R) pre) (name, view R s) (flat_map (vmem R) post)
+                 (name, view (Radd R g) s) [((format_path path name ++ suffix)%string, d)] true).
+      * cbn [bind]. rewrite format_path_app. reflexivity.
+      * intros kv Hkv. apply in_flat_map in Hkv as [y [Hy0 Hkv]]. eapply (Hoth path); [apply in_or_app; left; exact Hy0|exact Hkv].
       * unfold obj_body. rewrite Hsub. cbn [bind]. reflexivity.
-      * intros kv Hkv. apply in_flat_map in Hkv as [y [Hy0 Hkv]]. eapply Hoth; [apply in_or_app; right; exact Hy0|exact Hkv].
+      * intros kv Hkv. apply in_flat_map in Hkv as [y [Hy0 Hkv]]. eapply (Hoth path); [apply in_or_app; right; exact Hy0|exact Hkv].
 Qed.
 Print Assumptions restore1_exposed.
 End G.
